@@ -1,27 +1,70 @@
 (* Properties/C02.v — link failure never marks an undelivered message sent, nor loses or
    duplicates one.
 
-   On the model side the property rests on two facts that are theorems: a side never panics
-   whatever prefix of its peer's stream it receives before the link fails (C03_no_panic applied
-   to the prefix), and nothing reaches the inbound handler that did not pass the frame checks,
-   the LZHUF Close and the message parser (C04_integrity) -- so whatever is handed over is the
-   sender's message.  The safety statement proper (a message is reported sent only if the peer
-   completely received it) and the convergence statement are kept as Props and decided per run:
-   every cut position of every recorded exchange in both directions with two real sessions,
-   storage errors at chosen messages, and histories of faulty sessions followed by a clean one
-   on the reference handler and on the real directory mailbox. *)
-From Verif Require Import Base.Bytes B2F.Secure B2F.Side B2F.SideP.
+   THEOREMS on the model side (B2F/Side.v), for every configuration and every received byte
+   sequence:
+   - causality (C02_cut): cutting the link later never changes what happened earlier -- the run
+     on a prefix of the input writes and records a prefix of what the run on the longer input
+     writes and records (one documented corner excluded: a cut exactly behind an EOT byte, where
+     the missing frame checksum byte reads as 0, mirrored from the code; CutP.cut_after_eot_counterexample);
+   - sender half (C02_sender_half): a message is reported sent only after a byte 'F' or ';' of
+     the peer's NEXT command was received behind the complete transfer; with the input cut just
+     before that byte the run ends in "connection lost" with the message NOT reported sent;
+   - receiver half (C02_receiver_half): after its FS answer line the receiver writes nothing
+     until every accepted message of the block was received completely and handed to the
+     handler successfully (then it writes its next command, starting with 'F'); a failed
+     transfer or store ends the session with at most the error report, which starts with '*';
+   - a side never panics whatever prefix it receives (C02_cut_no_panic), and only intact
+     transfers are handed over (C02_intact).
+   The two-party statement as it was first written down here is FALSE (C02_first_statement_
+   refuted: nothing tied the proposed MID to the MID inside the compressed message); the
+   corrected statement (C02_safety_statement: opposite roles, well-formed outbox) is kept as a
+   Prop: its proof needs the full two-party simulation and is decided per run -- every cut
+   position of every recorded exchange in both directions with two real sessions, storage
+   errors at chosen messages (also inside the real directory mailbox), and histories of faulty
+   sessions followed by a clean one. *)
+From Verif Require Import Base.Bytes B2F.Secure B2F.Side B2F.SideP B2F.CutP.
 Open Scope N_scope.
 
-(* FULL STATEMENT of safety on the model (not asserted): if A marks mid sent, then B, run on
-   any prefix of what A wrote, processed it *)
-Definition C02_safety_statement : Prop :=
-  forall (a b : side_cfg) (in_a : bytes) (k : nat) (mid : bytes),
-    let oa := exchange a in_a in
-    In (EvSetSent mid false) (x_events oa) ->
-    (* in_a is what B wrote when fed a prefix of A's output *)
-    in_a = firstn (length in_a) (x_wire (exchange b (firstn k (x_wire oa)))) ->
-    exists data, In (EvProcess mid data true) (x_events (exchange b (firstn k (x_wire oa)))).
+(* FULL STATEMENT of two-party safety on the model (not asserted): if A marks mid sent, then
+   B, run on any prefix of what A wrote that makes it produce what A received, processed it *)
+Definition C02_safety_statement : Prop := two_party_safety_corrected.
+
+(* the statement as first written (without the hypotheses on roles and outbox) is false *)
+Theorem C02_first_statement_refuted : ~ two_party_safety_as_stated.
+Proof. exact two_party_safety_as_stated_is_false. Qed.
+Print Assumptions C02_first_statement_refuted.
+
+(* causality *)
+Theorem C02_cut : forall cfg (I1 I2 : bytes),
+  ~ ends_eot I1 ->
+  let o1 := exchange cfg I1 in
+  let o2 := exchange cfg (I1 ++ I2) in
+  (x_res o1 <> XConnLost -> same_obs o1 o2) /\
+  (x_res o1 = XConnLost -> x_res o2 <> XUnknown -> continues o1 o2).
+Proof. exact exchange_cut. Qed.
+Print Assumptions C02_cut.
+
+(* sender half *)
+Theorem C02_sender_half : forall cfg (I : bytes) mid,
+  In (EvSetSent mid false) (x_events (exchange cfg I)) ->
+  exists I1 c I2, I = I1 ++ c :: I2 /\ (c = 70 \/ c = 59) /\
+    x_res (exchange cfg I1) = XConnLost /\
+    ~ In (EvSetSent mid false) (x_events (exchange cfg I1)) /\
+    prefix (x_wire (exchange cfg I1)) (x_wire (exchange cfg I)).
+Proof. exact sent_only_after_next_command. Qed.
+Print Assumptions C02_sender_half.
+
+(* receiver half *)
+Theorem C02_receiver_half : forall f s q props s1,
+  inbound_loop (S (length (s_in s))) s [] [] = ROk (q, props, s1) ->
+  let t := turns (S f) false s in
+  exists w, s_out (snd t) = w ++ s_out s1 /\
+    (w = [] \/ (starts_with_F w /\ exists s2 evs,
+        receive_accepted s1 props = RcOk s2 /\ s_out s2 = s_out s1 /\
+        s_ev s2 = rev evs ++ s_ev s1 /\ block_processed props evs /\ pre (s_ev s2) (s_ev (snd t)))).
+Proof. exact receiver_half. Qed.
+Print Assumptions C02_receiver_half.
 
 (* after any cut the surviving side terminates in ConnLost/error/nil, never in a panic *)
 Theorem C02_cut_no_panic : forall cfg (stream : bytes) (k : nat),
